@@ -79,6 +79,25 @@ def _comma_group_binop(src):
     return False
 
 
+def _k30(src):
+    """a function body that assigns NAME and has a var declaration of its own, while `var NAME` is declared AFTER that function"""
+    decls = [(m.start(), n) for m in re.finditer(r'\bvar\s+([^;{}()]*)', src) for n in re.findall(r'(?:^|,)\s*([A-Za-z_$][\w$]*)', m.group(1))]
+    if not decls:
+        return False
+    for m in re.finditer(r'\bfunction\b[^{]*\{', src):
+        depth, j = 1, m.end()
+        while j < len(src) and depth:
+            depth += (src[j] == '{') - (src[j] == '}')
+            j += 1
+        body = src[m.end():j]
+        if not re.search(r'\bvar\b', body):
+            continue
+        for pos, name in decls:
+            if pos >= j and re.search(r'(?<![\w$.])' + re.escape(name) + r'\s*=(?!=)', body):
+                return True
+    return False
+
+
 def _paren_optchain(src):
     """a GROUPING parenthesis (not a call's) that contains `?.` at its own nesting level and is continued by . [ ( or `"""
     stack = []
@@ -499,7 +518,8 @@ _ex(r'[{,]\s*(undefined|Infinity)\s*[,}]|\b(undefined|Infinity)\s*(=(?!=)|\+\+|-
     'K13 undefined/Infinity as shorthand property or assignment/update target ({undefined} -> {0[0]}, Infinity=1 -> 1/0=1: SyntaxError)')
 _EMPTY = r"""(?:""|'')"""
 # statement bodies that the minifier reduces to nothing: ; {} {;} {var x;} {let y=...;}
-_EMPTYBODY = r'(?:;|\{[;\s]*\}|\{\s*var\s[^{};=]*[;\s]*\}|\{\s*(?:let|const)\s[^{};]*[;\s]*\}|\{\s*\{\s*(?:let|const)\s[^{};]*[;\s]*\}[;\s]*\})'
+_EMPTY1 = r'(?:[;\s]*(?:var\s[^{};=]*|(?:let|const)\s[^{};]*)?[;\s]*(?:var\s[^{};=]*[;\s]*)*)'
+_EMPTYBODY = r'(?:;|\{' + _EMPTY1 + r'\}|\{[;\s]*\{' + _EMPTY1 + r'\}[;\s]*\}|\{[;\s]*\{[;\s]*\{' + _EMPTY1 + r'\}[;\s]*\}[;\s]*\})'
 _ex(r"""(?<![\\"'])""" + _EMPTY + r"""(?=\s*\?(?![.?]))|\b(if|while)\s*\(\s*[!(\s]*""" + _EMPTY + r"""[)\s]*\)|!\s*\(*\s*""" + _EMPTY +
     r"""|[?:]\s*\(*""" + _EMPTY + r"""\s*\)*\s*[:;)]""",
     'K14 the empty string literal as a condition (treated as truthy: ""?a:b -> a)')
@@ -510,7 +530,7 @@ _ex(r'function\b[^(]*\([^)]*\b(undefined|NaN|Infinity)\b[^)]*\)\s*\{|\b(var|let|
     'K16 local bindings named undefined/NaN/Infinity (treated as the global constants)')
 _K17_VOID = r'\bvoid\s*(\((?!\s*0\s*\))[^;\n]*|class\b[^;\n]*|[\w.$]+\s*(?:[-+*/%<>&|^]|instanceof\b|in\b|[!=]=)[^;\n]*|[-+~!][^;\n]*|typeof\b[^;\n]*|[\[{`][^;\n]*)'
 _K17_IF = r'\bif\s*\(([^;{}]*[-+*/%<>&|^!~=][^;{}]*)\)\s*' + _EMPTYBODY + r'(?:\s*else\s*' + _EMPTYBODY + r')?(?!\s*else)'
-_K17_LET = r'\{\s*(?:let|const)\s+\w+\s*=\s*([^;{}]*[-+*/%<>&|^!~=][^;{}]*)[;\s]*\}'
+_K17_LET = r'\{[;\s]*(?:let|const)\s+\w+\s*=\s*([^;{}]*[-+*/%<>&|^!~=?][^;{}]*)[;\s]*(?:var\s[^{};=]*[;\s]*)*\}'
 _K17_EFFECT = re.compile(r'[\w$)\]]\s*\(|[\w$)\]]\s*\??\.\s*[A-Za-z_$#]|[\w$)\]]\s*\[|(?<![=!<>])=(?![=>])|\+\+|--|\bnew\b|\bdelete\b|`|\byield\b|\bawait\b')
 
 
@@ -581,6 +601,8 @@ _ex(lambda src: _comma_group_binop(src), 'K28 a parenthesised comma expression a
     '((a,b==c)+d -> a,b==c+d in statement position)')
 _ex(r'\btypeof\s*\(\s*\(?[^()]*(\?[^()]*\)?\s*:|,)', 'K29 typeof of a parenthesised conditional/comma expression that reduces to a bare identifier '
     '(typeof (c?b:b) -> typeof b: no ReferenceError for an undeclared b)')
+_ex(_k30, 'K30 a function that assigns a global `var` declared LATER in the source and has a var declaration of its own '
+    '(the assignment is merged into the function\'s declaration: function f(){x=1;var y=2}var x -> function f(){var x=1,e=2}var x)')
 _ex(r'\bstatic\s+[0-9.]', 'K23 static class fields with numeric names (static 1=2 -> static1=2)')
 
 # ===================================================================================================
